@@ -260,9 +260,9 @@ def enter_cm(self, st, cm, node):
     """Context managers known to the engine: locks (permission tokens) and
     contract-declared managers (shape field `__cm__`)."""
     if isinstance(cm, Val) and getattr(cm.ty, "name", "") in ("Lock", "RLock") or getattr(cm, "is_lock", False):
-        token = ("lock", self.lock_identity(st, cm, node))
+        token = ("lock", cm.term if isinstance(cm, Val) else self.lock_identity(st, cm, node))
         st.perms.append(token)
-        st.events.append(("acquire", token[1]))
+        st.events.append({"ev": "acquire", "lock": token[1]})
         return token, NONE
     if isinstance(cm, ObjRef):
         shape = self.reg.shapes[cm.shape]
@@ -283,7 +283,7 @@ def exit_cm(self, st, token, kind):
     if token and token[0] == "lock":
         if token in st.perms:
             st.perms.remove(token)
-        st.events.append(("release", token[1]))
+        st.events.append({"ev": "release", "lock": token[1]})
     elif token and callable(token[-1]):
         token[-1](self, st, kind)
 
@@ -649,7 +649,7 @@ def do_yield(self, st: State, val):
     if "$out_seq" in st.ghost:
         sq = st.ghost["$out_seq"]
         st.ghost["$out_seq"] = Val(z3.Concat(sq.term, z3.Unit(v.term)), sq.ty)
-    st.events.append(("yield", v))
+    st.events.append({"ev": "yield", "value": v, "perms": tuple(st.perms)})
 
 
 def yield_repr(self, st, val):
